@@ -19,6 +19,11 @@ let gen_len () =
   else if x < 836 then 16383 + pick 2 else if x < 840 then 65534 + pick 2
   else pick 40
 
+(* loose: for the must-reject generator (C09) only - source frames may carry empty topic
+   filters (structurally fine, and the library accepts them) and, now and then, a user
+   property key of 65534/65535 bytes *)
+let loose = ref false
+
 let gen_bytes_n n = List.init n (fun _ -> byte_tab.(pick 256))
 let gen_bytes () = gen_bytes_n (gen_len ())
 let gen_nonempty () = let n = gen_len () in gen_bytes_n (if n = 0 then 1 + pick 5 else n)
@@ -42,7 +47,9 @@ let gen_pval id (t : ptype) : pval =
   | PTVar -> VVar (n_of_int (gen_subid ()))
   | PTStr -> VStr (gen_bytes ())
   | PTBin -> VBinary (gen_bytes ())
-  | PTPair -> VPair (gen_nonempty (), gen_bytes ())
+  | PTPair ->
+    if !loose && chance 4 then VPair (gen_bytes_n (65534 + pick 2), gen_bytes_n (pick 3))
+    else VPair (gen_nonempty (), gen_bytes ())
 
 let all_ids = [1;2;3;8;9;11;17;18;19;21;22;23;24;25;26;28;31;33;34;35;36;37;38;39;40;41;42]
 
@@ -92,13 +99,13 @@ let gen_frame () : aframe =
   | 8 ->
     let opt () = pick 3 lor (pick 2 lsl 2) lor (pick 2 lsl 3) lor (pick 3 lsl 4) in
     mk 2 (BSubscribe (n_of_int (1 + pick 65535), gen_props 8,
-                      List.init (1 + pick 4) (fun _ -> (gen_nonempty (), n_of_int (opt ())))))
+                      List.init (1 + pick 4) (fun _ -> ((if !loose && chance 25 then [] else gen_nonempty ()), n_of_int (opt ())))))
   | 9 | 11 ->
     mk 0 (BSuback (n_of_int (1 + pick 65535), gen_props t,
                    List.init (1 + pick 5) (fun _ -> n_of_int (gen_num 8))))
   | 10 ->
     mk 2 (BUnsubscribe (n_of_int (1 + pick 65535), gen_props 10,
-                        List.init (1 + pick 4) (fun _ -> gen_nonempty ())))
+                        List.init (1 + pick 4) (fun _ -> if !loose && chance 25 then [] else gen_nonempty ())))
   | 12 | 13 -> mk 0 BPing
   | 14 ->
     let form = pick 3 in
